@@ -24,6 +24,13 @@
      PFnDone c r --lock; delete(key)--> PDeleted c r    [deferred func, first half]
      PDeleted c r --wg.Done; return--> PIdle            [deferred func, second half + return]
 
+   A user function that PANICS is scripted as [oerr = epanic].  The clean-up of makeCall
+   (both primitives) is a deferred function, so it runs all the same: the entry is deleted, the
+   WaitGroup released, and only then does the panic leave the leader's call (its record carries
+   [(vnil, epanic)]).  Nothing was assigned to c.val / c.err, so SingleFlight waiters return
+   [(vnil, 0)] = (nil, nil) ([shared]); in GetResource the waiter's [val.(io.Closer)] on that nil
+   then panics as well.  LockedCalls waiters simply retry.
+
    Ghost state (does not influence control): the logical clock [now] (one tick per action),
    time stamps of invoke / join / leader return, the id of the heap object a result came
    from, per-call count of own fn runs, per-key count of successful creations. *)
@@ -39,6 +46,16 @@ Definition grp_eqb (a b : grp) : bool :=
 (* one call: group, key, and what this caller's own user function returns (val, err);
    err = 0 is nil.  For GRM: (instance, err) returned by [create]. *)
 Record op := mkOp { ogrp : grp; okey : Z; oval : Z; oerr : Z }.
+
+(* a panicking user function; the nil value *)
+Definition epanic : Z := (-2)%Z.
+Definition vnil : Z := (-1)%Z.
+Definition panics (o : op) : bool := Z.eqb (oerr o) epanic.
+
+(* what the user function of the call hands to its caller (the leader) ... *)
+Definition fn_ret (o : op) : Z * Z := if panics o then (vnil, epanic) else (oval o, oerr o).
+(* ... and what is then found in c.val, c.err by the waiters: a panic assigned nothing *)
+Definition shared (r : Z * Z) : Z * Z := if Z.eqb (snd r) epanic then (vnil, 0%Z) else r.
 
 Inductive pc :=
 | PIdle
@@ -144,8 +161,13 @@ Definition step (s : state) (t : nat) : option state :=
           | _ =>
             match cval (heap s c) with
             | Some (v, e) =>
+              (* GetResource: [val.(io.Closer)] on the (nil, nil) left by a panicking leader panics *)
+              let '(v', e') := match g with
+                               | GRM => if Z.eqb v vnil && Z.eqb e 0 then (vnil, epanic) else (v, e)
+                               | _ => (v, e)
+                               end in
               Some (mkState T (calls s) (heap s) (nextc s) (resources s) (ncreated s)
-                     (put (finish th v e false c (now s))))
+                     (put (finish th v' e' false c (now s))))
             | None => None   (* unreachable: a done object has its value (Proofs.Inv) *)
             end
           end
@@ -165,8 +187,8 @@ Definition step (s : state) (t : nat) : option state :=
                    (put (set_pc th (PRmCreate c))))
           end
         | _ =>
-          let r := (oval o, oerr o) in
-          Some (mkState T (calls s) (fupd (heap s) c (with_val (heap s c) r)) (nextc s)
+          let r := fn_ret o in
+          Some (mkState T (calls s) (fupd (heap s) c (with_val (heap s c) (shared r))) (nextc s)
                  (resources s) (ncreated s) (put (set_pc th (PFnDone c r))))
         end
       | PRmCreate c =>
@@ -174,8 +196,9 @@ Definition step (s : state) (t : nat) : option state :=
           Some (mkState T (calls s) (heap s) (nextc s) (resources s)
                  (zupd (ncreated s) k (S (ncreated s k))) (put (set_pc th (PRmStore c (oval o)))))
         else
-          let r := ((-1)%Z, oerr o) in
-          Some (mkState T (calls s) (fupd (heap s) c (with_val (heap s c) r)) (nextc s)
+          (* create failed (or panicked: oerr o = epanic) *)
+          let r := (vnil, oerr o) in
+          Some (mkState T (calls s) (fupd (heap s) c (with_val (heap s c) (shared r))) (nextc s)
                  (resources s) (ncreated s) (put (set_pc th (PFnDone c r))))
       | PRmStore c x =>
         Some (mkState T (calls s) (fupd (heap s) c (with_val (heap s c) (x, 0%Z))) (nextc s)
@@ -186,7 +209,10 @@ Definition step (s : state) (t : nat) : option state :=
       | PDeleted c r =>
         let h := heap s c in
         let h' := mkCall (cgrp h) (ckey h) (clead h) (cinvt h) (cval h) true (Some (now s)) in
-        let '(v, e) := match g with
+        (* the leader returns c.val, c.err (its own function's result for LockedCalls), unless
+           the panic of its function now leaves the call *)
+        let '(v, e) := if Z.eqb (snd r) epanic then r else
+                       match g with
                        | GLC => r
                        | _ => match cval h with Some r' => r' | None => r end
                        end in
@@ -218,3 +244,7 @@ Definition enabled (s : state) (t : nat) : bool :=
 
 Definition finished (th : thread) : bool :=
   match cur_op th with None => true | Some _ => false end.
+
+(* some thread has not finished its script / some thread can move *)
+Definition unfinished (s : state) : bool := existsb (fun th => negb (finished th)) (threads s).
+Definition can_move (s : state) : bool := existsb (enabled s) (seq 0 (length (threads s))).
